@@ -434,6 +434,70 @@ theorem run_equal (fr : Frame) (sh : Shared) (rest' : Bytes) (a b : Bytes) (st :
   exact Steps.done _ _
 
 
+/-! ### EQUAL_VERIFY, runs of pushes -/
+/-- `OP_EQUAL_VERIFY` on equal items -/
+theorem run_equal_verify_ok (fr : Frame) (sh : Shared) (rest' : Bytes) (a b : Bytes) (st : List Bytes) (r : Res)
+    (hrest : fr.rest = EQUAL_VERIFY ++ rest') (hcap : fr.len0 < fr.cap) (hr : sh.returned = false)
+    (hs : sh.stack = a :: b :: st) (hab : a = b) (h1 : 1 ≤ cfg.lim.maxItemSize) (hroom : st.length < cfg.lim.maxItems)
+    (h : TSteps (instrTable H C cfg) cfg.lim { fr with rest := rest' } { sh with stack := st } r) :
+    TSteps (instrTable H C cfg) cfg.lim fr sh r := by
+  refine run_instr fr _ sh _ 34 rest' r (by simpa [EQUAL_VERIFY, opc] using hrest) hcap hr ?_ h
+  show Steps _ _ (opEqualVerify .done) _ _ _
+  unfold opEqualVerify opEqual pushBool
+  nstep Steps.pop a (b :: st) hs ?_
+  nstep Steps.pop b st rfl ?_
+  have : (a == b) = true := by simp [hab]
+  rw [this]
+  nstep Steps.push (by simp [boolBytes]; omega) (by simpa using hroom) ?_
+  unfold opVerify
+  nstep Steps.pop (boolBytes true) st rfl ?_
+  simp only [show truthy (boolBytes true) = true by decide, ↓reduceIte]
+  exact Steps.done _ _
+
+/-- `OP_EQUAL_VERIFY` on different items: the script ends with an error -/
+theorem run_equal_verify_fail (fr : Frame) (sh : Shared) (rest' : Bytes) (a b : Bytes) (st : List Bytes)
+    (hrest : fr.rest = EQUAL_VERIFY ++ rest') (hcap : fr.len0 < fr.cap) (hr : sh.returned = false)
+    (hs : sh.stack = a :: b :: st) (hab : a ≠ b) (h1 : 1 ≤ cfg.lim.maxItemSize) (hroom : st.length < cfg.lim.maxItems) :
+    TSteps (instrTable H C cfg) cfg.lim fr sh (.err (.user .see) { sh with stack := st }) := by
+  refine TSteps.cons_err 34 rest' (by simpa [EQUAL_VERIFY, opc] using hrest) hcap hr ?_
+  show Steps _ _ (opEqualVerify .done) _ _ _
+  unfold opEqualVerify opEqual pushBool
+  nstep Steps.pop a (b :: st) hs ?_
+  nstep Steps.pop b st rfl ?_
+  have : (a == b) = false := by simpa using hab
+  rw [this]
+  nstep Steps.push (by simp [boolBytes]; omega) (by simpa using hroom) ?_
+  unfold opVerify
+  nstep Steps.pop (boolBytes false) st rfl ?_
+  simp only [show truthy (boolBytes false) = false by decide, Bool.false_eq_true, ↓reduceIte]
+  exact Steps.fail _ _ _
+
+/-- a run of compiler-emitted pushes leaves the values on the stack, last one on top -/
+theorem run_pushes : ∀ (vs : List Bytes) (fr : Frame) (sh : Shared) (rest' : Bytes) (r : Res),
+    fr.rest = vs.flatMap pushB ++ rest' → fr.len0 < fr.cap → sh.returned = false →
+    (∀ v ∈ vs, 0 < v.length ∧ v.length < 65536 ∧ v.length ≤ cfg.lim.maxItemSize) →
+    sh.stack.length + vs.length ≤ cfg.lim.maxItems →
+    TSteps (instrTable H C cfg) cfg.lim { fr with rest := rest' } { sh with stack := vs.reverse ++ sh.stack } r →
+    TSteps (instrTable H C cfg) cfg.lim fr sh r := by
+  intro vs
+  induction vs with
+  | nil =>
+    intro fr sh rest' r hrest _ _ _ _ h
+    simp only [List.flatMap_nil, List.nil_append] at hrest
+    have hf : ({ fr with rest := rest' } : Frame) = fr := by cases fr; simp_all
+    have hsh : ({ sh with stack := ([] : List Bytes).reverse ++ sh.stack } : Shared) = sh := by cases sh; simp
+    rw [hf, hsh] at h
+    exact h
+  | cons v vs ih =>
+    intro fr sh rest' r hrest hcap hr hv hroom h
+    have hv0 := hv v (by simp)
+    simp only [List.flatMap_cons, List.append_assoc] at hrest
+    simp only [List.length_cons] at hroom
+    refine run_pushB H C cfg fr sh v (vs.flatMap pushB ++ rest') r hv0.1 hv0.2.1 hrest hcap hr hv0.2.2 (by omega) ?_
+    refine ih _ _ rest' r rfl hcap hr (fun x hx => hv x (by simp [hx])) (by simp; omega) ?_
+    simpa [List.reverse_cons, List.append_assoc] using h
+
+
 /-! ### outcomes -/
 /-- what a run amounts to for the verdict: the final stack, or the error -/
 def Res.summary : Res → Except Err (List Bytes)
